@@ -15,7 +15,8 @@ RULE = ("matrix {basic,buffered,async} client x server (server via Acceptor/Acce
         "round-robin} x recv segmentation {none,1,7,100 bytes} x shared/separate drivers, real OpenSSL 3 over loopback under the "
         "virtual clock; unlimited-timeout sides run on their own thread. Plus: TLS 1.2, payloads 1 byte .. >16 KiB "
         "(multi-record), >9 records in one Send, congested full-duplex transfer with tiny socket buffers, a congested asynchronous "
-        "multi-record sender (partial DriverSend + retry from the moved buffer), short writes, "
+        "multi-record sender (partial DriverSend + retry from the moved buffer), short writes, an unrelated TLS socket of the same thread "
+        "destroyed in the middle of its handshake (OpenSSL error queue), "
         "plain-TCP peers (HTTP text) in both roles. thorough enumerates the matrix completely, quick samples it. "
         "non-trivial = a case in which a handshake was driven to completion and payload crossed in both directions, "
         "or a non-TLS peer was rejected; distinct op scripts.")
@@ -138,6 +139,17 @@ def specials(rng):
     for srv, style, csz in (("basic", "poll", 60000), ("buffered", "seq", 60000), ("async", "seq", 100000)):
         o = case_ops("async", srv, 0, 0, "s", "r", style, 0, rng.randrange(10**6), csz, 50, extra="bufs=8192")
         out.append(o)
+    # F15 (fixed by the commit recorded in known_findings.json): another TLS socket of the same thread was destroyed in the
+    # middle of its handshake (entry left in the thread's OpenSSL error queue): the endpoints under test must be unaffected
+    # (OpenSSL itself clears the queue while it drives a handshake, so the entry must be left AFTER the pair under test is
+    # established: first the client's payload, then the poisoning, then the server's payload)
+    for cli, srv, T in (("basic", "basic", 0), ("buffered", "basic", 50), ("basic", "buffered", 0), ("buffered", "buffered", 50)):
+        o = case_ops(cli, srv, T, T, "s", "s", "poll", 0, rng.randrange(10**6), 3000, 100)
+        out.append([o[0], "loop 20 c:send:%d s:recv:%d" % (T, T), "poison",
+                    "loop 400 c:recv:%d s:send:%d c:recv:%d" % (T, T, T), "final"])
+    for kind in ("async",):
+        o = case_ops("basic", kind, 0, 0, "s", "s", "seq", 0, rng.randrange(10**6), 3000, 100)
+        out.append([o[0], "loop 40 c:send:0 s:step:0", "poison", "loop 400 s:enq:1 s:step:0 c:recv:0", "final"])
     # short writes of the kernel
     for cli, srv in (("basic", "async"), ("async", "basic"), ("buffered", "buffered")):
         o = case_ops(cli, srv, 0, 50, "s", "s", "seq", 7, rng.randrange(10**6), 5000, 5000, extra="wsegc=1000 wsegs=333")
